@@ -295,6 +295,17 @@ Definition leak_of_f (c : cfg) (st : astate) (nx : N) (fuse : option N) (o : op)
       | OPop _ v KDrop => take_drop_leak c st v TPop 0 k
       | ORemove _ v idx KDrop => take_drop_leak c st v TRemove idx k
       | OSwapRemove _ v idx KDrop => take_drop_leak c st v TSwapRemove idx k
+      (* an insert whose lazy clone panicked has hidden the tail behind the insertion point: it is leaked *)
+      | OInsert Erased v idx (SLazy _ src sidx) =>
+          match sp_offer_lazy_f c st nx v (Some idx) src sidx, get_a v st with
+          | Some r, Some a => if s_pk r =? 8 then skipn (N.to_nat idx) (a_xs a) else []
+          | _, _ => []
+          end
+      | OInsert Erased v idx (SLazyUser _) =>
+          match sp_offer_userlazy_f c st nx v (Some idx), get_a v st with
+          | Some r, Some a => if s_pk r =? 8 then skipn (N.to_nat idx) (a_xs a) else []
+          | _, _ => []
+          end
       | _ => []
       end
   end.
@@ -1010,6 +1021,71 @@ Proof.
   perm_count.
 Qed.
 
+Lemma put_value_not_user (a : avec) idx t p : put_value c a idx t = inr p -> (panic_code p =? 8) = false.
+Proof.
+  unfold put_value. destruct idx as [i|].
+  - destruct (N.of_nat (length (a_xs a)) <? i); [intros H; injection H as <-; reflexivity|].
+    destruct (full c a); [intros H; injection H as <-; reflexivity|discriminate].
+  - destruct (full c a); [intros H; injection H as <-; reflexivity|discriminate].
+Qed.
+Lemma clone_panic_own st v a idx D L X :
+  get_a v st = Some a ->
+  Permutation X (vis st ++ D ++ L) ->
+  Permutation X (vis (after_clone_panic st v a idx) ++ D ++ (L ++ match idx with None => [] | Some i => skipn (N.to_nat i) (a_xs a) end)).
+Proof.
+  intros Hg Hinv. destruct idx as [i|]; cbn [after_clone_panic].
+  - pose proof (vis_get_any st v) as Hv. rewrite Hg in Hv. cbn [slot_xs] in Hv.
+    pose proof (vis_set_any st v (Some (with_xs a (firstn (N.to_nat i) (a_xs a))))) as H1. cbn [slot_xs with_xs a_xs] in H1.
+    assert (Hx : Permutation (a_xs a) (firstn (N.to_nat i) (a_xs a) ++ skipn (N.to_nat i) (a_xs a))) by (rewrite firstn_skipn; reflexivity).
+    perm_count.
+  - perm_count.
+Qed.
+Lemma offer_lazy_own_f st nx v idx src sidx r D L :
+  sp_offer_lazy_f c st nx v idx src sidx = Some r ->
+  Permutation (created c nx) (vis st ++ D ++ L) ->
+  Permutation (created c (s_nx r))
+    (vis (s_st r) ++ (D ++ drops (s_evs r)) ++
+     (L ++ match idx, get_a v st with
+           | Some i, Some a => if s_pk r =? 8 then skipn (N.to_nat i) (a_xs a) else []
+           | _, _ => []
+           end)).
+Proof.
+  intros Hr Hinv. unfold sp_offer_lazy_f in Hr.
+  destruct (Nat.eqb src v); [discriminate|].
+  destruct (get_a v st) as [a|] eqn:Hg; [|discriminate].
+  destruct (get_a src st) as [b|]; [|discriminate].
+  assert (Hsame : forall p, (panic_code p =? 8) = false ->
+            Permutation (created c nx) (vis st ++ (D ++ drops []) ++ (L ++ match idx with Some i => if panic_code p =? 8 then skipn (N.to_nat i) (a_xs a) else [] | None => [] end))).
+  { intros p Hp. rewrite Hp. cbn [drops flat_map]. destruct idx; perm_count. }
+  destruct (sidx <? N.of_nat (length (a_xs b))).
+  - destruct (put_value c a idx (tok c nx)) as [xs'|p] eqn:Ep; injection Hr as <-; cbn [panic_res s_nx s_st s_evs s_pk].
+    + cbn [panic_code N.eqb Pos.eqb drops flat_map]. rewrite app_nil_r.
+      pose proof (clone_panic_own st v a idx D L _ Hg Hinv) as H. destruct idx; exact H.
+    + exact (Hsame p (put_value_not_user a idx _ p Ep)).
+  - injection Hr as <-. cbn [panic_res s_nx s_st s_evs s_pk]. exact (Hsame PIndex eq_refl).
+Qed.
+Lemma offer_userlazy_own_f st nx v idx r D L :
+  1 <= nx -> sp_offer_userlazy_f c st nx v idx = Some r ->
+  Permutation (created c nx) (vis st ++ D ++ L) ->
+  Permutation (created c (s_nx r))
+    (vis (s_st r) ++ (D ++ drops (s_evs r)) ++
+     (L ++ match idx, get_a v st with
+           | Some i, Some a => if s_pk r =? 8 then skipn (N.to_nat i) (a_xs a) else []
+           | _, _ => []
+           end)).
+Proof.
+  intros Hnx Hr Hinv. unfold sp_offer_userlazy_f in Hr.
+  destruct (get_a v st) as [a|] eqn:Hg; [|discriminate]. cbv zeta in Hr.
+  assert (Hinv1 : Permutation (created c (nx + 1)) (vis st ++ (D ++ [tok c nx]) ++ L)).
+  { rewrite (created_succ c nx Hnx). perm_count. }
+  destruct (put_value c a idx (tok c (nx + 1))) as [xs'|p] eqn:Ep; injection Hr as <-;
+    cbn [panic_res s_nx s_st s_evs s_pk]; rewrite (drops_drop_ev c _ Hdg).
+  - cbn [panic_code N.eqb Pos.eqb].
+    pose proof (clone_panic_own st v a idx (D ++ [tok c nx]) L _ Hg Hinv1) as H. destruct idx; exact H.
+  - rewrite (put_value_not_user a idx _ p Ep). destruct idx; [|exact (eq_ind _ (fun l => Permutation _ (vis st ++ (D ++ [tok c nx]) ++ l)) Hinv1 _ (eq_sym (app_nil_r L)))].
+    rewrite app_nil_r. exact Hinv1.
+Qed.
+
 Theorem step_own_f st nx fuse o r D L :
   1 <= nx -> spec_step_f c st nx fuse o = Some r ->
   Permutation (created c nx) (vis st ++ D ++ L) ->
@@ -1036,6 +1112,12 @@ Proof.
   - (* ODropVec *)
     destruct (sp_clear_f c st nx v k) as [r0|] eqn:E0; [|discriminate]. injection Hr as <-. cbn [s_nx s_st s_evs].
     apply (Hclear v r0 E0). intros x. reflexivity.
+  - (* OPush *) destruct a; [|discriminate]. destruct s; try discriminate; destruct (k =? 0); try discriminate.
+    + exact (offer_lazy_own_f st nx v None vid idx r D L Hr Hinv).
+    + exact (offer_userlazy_own_f st nx v None r D L Hnx Hr Hinv).
+  - (* OInsert *) destruct a; [|discriminate]. destruct s; try discriminate; destruct (k =? 0) eqn:Ek; try discriminate.
+    + pose proof (offer_lazy_own_f st nx v (Some idx) vid idx0 r D L Hr Hinv) as H. rewrite Hr. exact H.
+    + pose proof (offer_userlazy_own_f st nx v (Some idx) r D L Hnx Hr Hinv) as H. rewrite Hr. exact H.
   - destruct k0; try discriminate. exact (take_drop_own_f st nx v TPop 0 k r D L (fun _ => eq_refl) Hnx Hr Hinv).
   - destruct k0; try discriminate. exact (take_drop_own_f st nx v TRemove idx k r D L ltac:(discriminate) Hnx Hr Hinv).
   - destruct k0; try discriminate. exact (take_drop_own_f st nx v TSwapRemove idx k r D L ltac:(discriminate) Hnx Hr Hinv).
